@@ -40,7 +40,8 @@ theorem strict_default :
     (asyncssh) read from the AST equals the order cited in HostKey.lean -/
 theorem open_order_is_modelled :
     paramikoOpenCalls = paramikoOrder ∧ ssh2OpenCalls = ssh2Order ∧
-    asyncsshOpenCalls = asyncsshOrder (pinOf asyncsshOpenCalls) := by decide
+    asyncsshOpenCalls = asyncsshOrder (pinOf asyncsshOpenCalls || fallbackOf asyncsshOpenCalls)
+      (fallbackOf asyncsshOpenCalls) := by decide
 
 /-! ### the ordering theorem, for EVERY call order -/
 
@@ -57,7 +58,7 @@ theorem order_protects (lib : Lib) (calls : List (Call × Bool)) (hsafe : safeOr
   exact ⟨h.2.1, by rw [h.2.2]; rfl⟩
 
 /-- the orders found in the source of paramiko and ssh2 pass the static check; asyncssh's passes
-    exactly when strict mode hands the expected key to `asyncssh.connect` -/
+    exactly when strict mode hands the expected key to `asyncssh.connect` and cannot end up without it -/
 theorem source_orders_checked :
     safeOrder paramikoOpenCalls = true ∧ safeOrder ssh2OpenCalls = true ∧
     safeOrder asyncsshOpenCalls = pinOf asyncsshOpenCalls := by decide
@@ -66,9 +67,9 @@ theorem source_orders_checked :
 
 /-- an abstract configuration coming from a concrete file in which no entry naming the host holds the
     server's key is "not found, or found with another key" -/
-theorem untrusted_of_entries (hmac : String → String → String) (es : List Entry) (host serverKey : String)
+theorem untrusted_of_entries (hmac : String → String → String) (imp : String → String → Bool) (es : List Entry) (host serverKey : String)
     (env : Env) (hun : ∀ e ∈ es, Names hmac host e → e.key ≠ serverKey) :
-    (cfgOf hmac es host serverKey env).found = false ∨ (cfgOf hmac es host serverKey env).equal = false := by
+    (cfgOf hmac imp es host serverKey env).found = false ∨ (cfgOf hmac imp es host serverKey env).equal = false := by
   cases hl : lookup hmac (parse es) host with
   | none => left; simp [cfgOf, hl]
   | some v =>
@@ -82,40 +83,40 @@ theorem untrusted_of_entries (hmac : String → String → String) (es : List En
     known_hosts content — ANY list of entries — has no entry naming the host (absent) or only entries
     with a key different from the one the server presents: the trace of `open()` ends in
     ScrapliAuthenticationFailed and contains no offerKey / offerPassword. -/
-theorem no_offer_before_verify (hmac : String → String → String) (es : List Entry) (host serverKey : String)
+theorem no_offer_before_verify (hmac : String → String → String) (imp : String → String → Bool) (es : List Entry) (host serverKey : String)
     (env : Env) (hs : env.strict = true) (hk : env.kexOK = true)
     (hun : ∀ e ∈ es, Names hmac host e → e.key ≠ serverKey) :
-    protectedTrace (paramikoOpen (cfgOf hmac es host serverKey env)) = true ∧
-    protectedTrace (ssh2Open (cfgOf hmac es host serverKey env)) = true := by
-  have hu := untrusted_of_entries hmac es host serverKey env hun
+    protectedTrace (paramikoOpen (cfgOf hmac imp es host serverKey env)) = true ∧
+    protectedTrace (ssh2Open (cfgOf hmac imp es host serverKey env)) = true := by
+  have hu := untrusted_of_entries hmac imp es host serverKey env hun
   have := forallCfg_spec (p := fun c => !(c.strict && c.kexOK && (!c.found || !c.equal)) ||
       (protectedTrace (paramikoOpen c) && protectedTrace (ssh2Open c))) (by decide +kernel)
-      (cfgOf hmac es host serverKey env)
-  have hs' : (cfgOf hmac es host serverKey env).strict = true := by simp [cfgOf, hs]
-  have hk' : (cfgOf hmac es host serverKey env).kexOK = true := by simp [cfgOf, hk]
+      (cfgOf hmac imp es host serverKey env)
+  have hs' : (cfgOf hmac imp es host serverKey env).strict = true := by simp [cfgOf, hs]
+  have hk' : (cfgOf hmac imp es host serverKey env).kexOK = true := by simp [cfgOf, hk]
   rcases hu with h | h <;> simp_all
 
 /-- without the handshake hypothesis: whatever happens, nothing is ever offered -/
-theorem no_offer_ever (hmac : String → String → String) (es : List Entry) (host serverKey : String)
+theorem no_offer_ever (hmac : String → String → String) (imp : String → String → Bool) (es : List Entry) (host serverKey : String)
     (env : Env) (hs : env.strict = true) (hun : ∀ e ∈ es, Names hmac host e → e.key ≠ serverKey) :
-    noOffers (paramikoOpen (cfgOf hmac es host serverKey env)) = true ∧
-    noOffers (ssh2Open (cfgOf hmac es host serverKey env)) = true := by
-  have hu := untrusted_of_entries hmac es host serverKey env hun
+    noOffers (paramikoOpen (cfgOf hmac imp es host serverKey env)) = true ∧
+    noOffers (ssh2Open (cfgOf hmac imp es host serverKey env)) = true := by
+  have hu := untrusted_of_entries hmac imp es host serverKey env hun
   have := forallCfg_spec (p := fun c => !(c.strict && (!c.found || !c.equal)) ||
-      (noOffers (paramikoOpen c) && noOffers (ssh2Open c))) (by decide +kernel) (cfgOf hmac es host serverKey env)
-  have hs' : (cfgOf hmac es host serverKey env).strict = true := by simp [cfgOf, hs]
+      (noOffers (paramikoOpen c) && noOffers (ssh2Open c))) (by decide +kernel) (cfgOf hmac imp es host serverKey env)
+  have hs' : (cfgOf hmac imp es host serverKey env).strict = true := by simp [cfgOf, hs]
   rcases hu with h | h <;> simp_all
 
 /-- credentials are offered only to a server whose key IS the one some entry naming the host holds -/
-theorem offer_implies_listed_key (hmac : String → String → String) (es : List Entry) (host serverKey : String)
+theorem offer_implies_listed_key (hmac : String → String → String) (imp : String → String → Bool) (es : List Entry) (host serverKey : String)
     (env : Env) (hs : env.strict = true)
-    (hoff : noOffers (paramikoOpen (cfgOf hmac es host serverKey env)) = false ∨
-            noOffers (ssh2Open (cfgOf hmac es host serverKey env)) = false) :
+    (hoff : noOffers (paramikoOpen (cfgOf hmac imp es host serverKey env)) = false ∨
+            noOffers (ssh2Open (cfgOf hmac imp es host serverKey env)) = false) :
     ∃ e ∈ es, Names hmac host e ∧ e.key = serverKey := by
   apply Classical.byContradiction
   intro hne
   have hun : ∀ e ∈ es, Names hmac host e → e.key ≠ serverKey := fun e he hn hk => hne ⟨e, he, hn, hk⟩
-  have := no_offer_ever hmac es host serverKey env hs hun
+  have := no_offer_ever hmac imp es host serverKey env hs hun
   rcases hoff with h | h <;> simp_all
 
 /-! ### asyncssh -/
@@ -123,39 +124,56 @@ theorem offer_implies_listed_key (hmac : String → String → String) (es : Lis
 /-- **asyncssh, host absent** (whether or not the expected key is pinned): no entry names the host ⇒
     `open()` raises ScrapliAuthenticationFailed before touching the network: the trace is exactly
     lookup(not found), verifyFail, raise — no kex, no offer. -/
-theorem asyncssh_absent_protected (hmac : String → String → String) (es : List Entry) (host serverKey : String)
+theorem asyncssh_absent_protected (hmac : String → String → String) (imp : String → String → Bool) (es : List Entry) (host serverKey : String)
     (env : Env) (hs : env.strict = true) (habs : ∀ e ∈ es, ¬ Names hmac host e) :
-    asyncsshOpen (cfgOf hmac es host serverKey env) =
+    asyncsshOpen (cfgOf hmac imp es host serverKey env) =
       [Ev.lookup false false, Ev.verifyFail, Ev.raise Exc.authenticationFailed] := by
-  have hf : (cfgOf hmac es host serverKey env).found = false := by
+  have hf : (cfgOf hmac imp es host serverKey env).found = false := by
     simp [cfgOf, lookup_none_of_absent habs]
-  have hs' : (cfgOf hmac es host serverKey env).strict = true := by simp [cfgOf, hs]
+  have hs' : (cfgOf hmac imp es host serverKey env).strict = true := by simp [cfgOf, hs]
   have := forallCfg_spec (p := fun c => !(c.strict && !c.found) ||
       (asyncsshOpen c == [Ev.lookup false false, Ev.verifyFail, Ev.raise Exc.authenticationFailed]))
-      (by decide +kernel) (cfgOf hmac es host serverKey env)
+      (by decide +kernel) (cfgOf hmac imp es host serverKey env)
   simp_all
 
 /-- the full statement for asyncssh, for a given treatment of `known_hosts=` -/
-def AsyncsshFull (pin : Bool) : Prop :=
+def AsyncsshFull (pin fb : Bool) : Prop :=
   ∀ c : Cfg, c.strict = true → c.kexOK = true → (c.hasKey = true → c.keyLoads = true) →
-    (c.found = false ∨ c.equal = false) → protectedTrace (run .asyncssh (asyncsshOrder pin) c) = true
+    (c.found = false ∨ c.equal = false) → protectedTrace (run .asyncssh (asyncsshOrder pin fb) c) = true
 
 /-- the witness: strict, host present with ANOTHER key, password authentication -/
 def leakCfg : Cfg :=
-  { strict := true, found := true, equal := false, hasKey := false, keyLoads := false, hasPw := true,
-    hasUser := true, kexOK := true, accKey := false, accPw := true }
+  { strict := true, found := true, equal := false, importable := true, hasKey := false, keyLoads := false,
+    hasPw := true, hasUser := true, kexOK := true, accKey := false, accPw := true }
+
+/-- the second witness: as above but the known_hosts line holds a key asyncssh cannot load
+    (truncated / garbage / mislabelled blob) -/
+def unusableCfg : Cfg := { leakCfg with importable := false }
 
 /-- **asyncssh, present with another key — REFUTED for the unrepaired order** (`known_hosts=None`
     handed to `connect()`, value compared afterwards): the password is offered BEFORE the mismatch is
-    raised.  Witness trace, machine-checked. -/
+    raised.  Witness trace, machine-checked.  (Finding F19, repaired by 304e179.) -/
 theorem asyncssh_unpinned_witness :
-    run .asyncssh (asyncsshOrder false) leakCfg =
+    run .asyncssh (asyncsshOrder false false) leakCfg =
       [Ev.lookup true false, Ev.kex, Ev.offerPassword, Ev.lookup true false, Ev.verifyFail,
        Ev.raise Exc.authenticationFailed] := by decide
 
-theorem asyncssh_unpinned_full_refuted : ¬ AsyncsshFull false := by
+theorem asyncssh_unpinned_full_refuted (fb : Bool) : ¬ AsyncsshFull false fb := by
   intro h
   have := h leakCfg rfl rfl (by decide) (Or.inr rfl)
+  cases fb <;> revert this <;> decide
+
+/-- **asyncssh, UNUSABLE key in known_hosts — REFUTED for an order whose key loader has a non-raising
+    path** (`fallback`): with a line for the host whose key cannot be imported, `connect()` gets
+    `known_hosts=None` and the password is offered to an unverified server. -/
+theorem asyncssh_fallback_witness :
+    run .asyncssh (asyncsshOrder true true) unusableCfg =
+      [Ev.lookup true false, Ev.lookup true false, Ev.kex, Ev.offerPassword, Ev.lookup true false,
+       Ev.verifyFail, Ev.raise Exc.authenticationFailed] := by decide
+
+theorem asyncssh_fallback_full_refuted : ¬ AsyncsshFull true true := by
+  intro h
+  have := h unusableCfg rfl rfl (by decide) (Or.inr rfl)
   revert this; decide
 
 /-- … and what remains true of the unrepaired order (`_partial`): everything except "present with
@@ -163,13 +181,13 @@ theorem asyncssh_unpinned_full_refuted : ¬ AsyncsshFull false := by
     ScrapliAuthenticationFailed (only too late). -/
 theorem asyncssh_unpinned_partial (c : Cfg) (hs : c.strict = true) (hk : c.kexOK = true)
     (hl : c.hasKey = true → c.keyLoads = true) :
-    (c.found = false → protectedTrace (run .asyncssh (asyncsshOrder false) c) = true) ∧
+    (c.found = false → protectedTrace (run .asyncssh (asyncsshOrder false false) c) = true) ∧
     (c.found = true → c.equal = false →
-      (run .asyncssh (asyncsshOrder false) c).getLast? = some (Ev.raise Exc.authenticationFailed)) := by
+      (run .asyncssh (asyncsshOrder false false) c).getLast? = some (Ev.raise Exc.authenticationFailed)) := by
   have := forallCfg_spec (p := fun c => !(c.strict && c.kexOK && (!c.hasKey || c.keyLoads)) ||
-      ((c.found || protectedTrace (run .asyncssh (asyncsshOrder false) c)) &&
+      ((c.found || protectedTrace (run .asyncssh (asyncsshOrder false false) c)) &&
        (!c.found || c.equal ||
-        (run .asyncssh (asyncsshOrder false) c).getLast? == some (Ev.raise Exc.authenticationFailed))))
+        (run .asyncssh (asyncsshOrder false false) c).getLast? == some (Ev.raise Exc.authenticationFailed))))
       (by decide +kernel) c
   have hA : (c.strict && c.kexOK && (!c.hasKey || c.keyLoads)) = true := by
     cases hh : c.hasKey <;> simp_all
@@ -184,36 +202,60 @@ theorem asyncssh_unpinned_partial (c : Cfg) (hs : c.strict = true) (hk : c.kexOK
     · simp [he] at h
     · simpa using h
 
-/-- **asyncssh, full statement ⇔ the expected key is pinned into `connect()`** -/
-theorem asyncssh_full_iff_pinned (pin : Bool) : AsyncsshFull pin ↔ pin = true := by
+/-- **asyncssh, full statement ⇔ the expected key is pinned into `connect()` with no way around it** -/
+theorem asyncssh_full_iff_pinned (pin fb : Bool) : AsyncsshFull pin fb ↔ (pin = true ∧ fb = false) := by
   constructor
   · intro h
     cases pin with
-    | true => rfl
-    | false => exact absurd h asyncssh_unpinned_full_refuted
-  · rintro rfl c hs hk hl hu
-    exact order_protects .asyncssh (asyncsshOrder true) (by decide) c hs hk hl hu
+    | false => exact absurd h (asyncssh_unpinned_full_refuted fb)
+    | true =>
+      cases fb with
+      | false => exact ⟨rfl, rfl⟩
+      | true => exact absurd h asyncssh_fallback_full_refuted
+  · rintro ⟨rfl, rfl⟩ c hs hk hl hu
+    exact order_protects .asyncssh (asyncsshOrder true false) (by decide) c hs hk hl hu
 
 /-- the same, for the order found in the CURRENT source: the full statement holds for asyncssh exactly
-    when the translator sees strict mode handing the expected key to `connect()`.  (Unrepaired tree:
-    `pinOf … = false`, so this theorem says the property FAILS there — finding F19.) -/
+    when the generated order passes the static check (expected key pinned, loader raises on every path
+    that yields no key). -/
 theorem asyncssh_current :
     (∀ c : Cfg, c.strict = true → c.kexOK = true → (c.hasKey = true → c.keyLoads = true) →
       (c.found = false ∨ c.equal = false) → protectedTrace (asyncsshOpen c) = true) ↔
-    pinOf asyncsshOpenCalls = true := by
-  have h := asyncssh_full_iff_pinned (pinOf asyncsshOpenCalls)
+    safeOrder asyncsshOpenCalls = true := by
+  have h := asyncssh_full_iff_pinned (pinOf asyncsshOpenCalls || fallbackOf asyncsshOpenCalls)
+    (fallbackOf asyncsshOpenCalls)
   unfold AsyncsshFull at h
   unfold asyncsshOpen
   rw [open_order_is_modelled.2.2]
-  exact h
+  rw [h]
+  cases (pinOf asyncsshOpenCalls || fallbackOf asyncsshOpenCalls) <;> cases (fallbackOf asyncsshOpenCalls) <;> decide
 
-/-- repaired order, concrete known_hosts: as for paramiko -/
-theorem asyncssh_pinned_no_offer (hmac : String → String → String) (es : List Entry) (host serverKey : String)
+/-- **the current source holds the full statement for asyncssh** (generated order: key pinned, no
+    fallback) -/
+theorem asyncssh_current_holds : safeOrder asyncsshOpenCalls = true := by decide
+
+/-- **asyncssh, unusable key** (repaired order): strict and the line found for the host holds a key
+    asyncssh cannot load ⇒ `open()` raises ScrapliAuthenticationFailed before touching the network —
+    whatever the blob is (even one textually equal to the server's key: fail closed). -/
+theorem asyncssh_unusable_key_protected (c : Cfg) (hs : c.strict = true) (hf : c.found = true)
+    (hi : c.importable = false) :
+    run .asyncssh (asyncsshOrder true false) c =
+      [Ev.lookup true c.equal, Ev.lookup true c.equal, Ev.raise Exc.authenticationFailed] := by
+  have := forallCfg_spec (p := fun c => !(c.strict && c.found && !c.importable) ||
+      (run .asyncssh (asyncsshOrder true false) c ==
+        [Ev.lookup true c.equal, Ev.lookup true c.equal, Ev.raise Exc.authenticationFailed]))
+      (by decide +kernel) c
+  have := imp_of_bool this (by rw [hs, hf, hi]; rfl)
+  simpa using this
+
+/-- repaired order, concrete known_hosts, every importability predicate: entry absent, other key, or
+    UNUSABLE key (any blob different from the server's) — nothing is offered -/
+theorem asyncssh_pinned_no_offer (hmac : String → String → String) (imp : String → String → Bool) (es : List Entry) (host serverKey : String)
     (env : Env) (hs : env.strict = true) (hk : env.kexOK = true) (hl : env.hasKey = true → env.keyLoads = true)
     (hun : ∀ e ∈ es, Names hmac host e → e.key ≠ serverKey) :
-    protectedTrace (run .asyncssh (asyncsshOrder true) (cfgOf hmac es host serverKey env)) = true :=
-  order_protects .asyncssh (asyncsshOrder true) (by decide) _ (by simp [cfgOf, hs]) (by simp [cfgOf, hk])
-    (by simpa [cfgOf] using hl) (untrusted_of_entries hmac es host serverKey env hun)
+    protectedTrace (run .asyncssh (asyncsshOrder true false) (cfgOf hmac imp es host serverKey env)) = true :=
+  order_protects .asyncssh (asyncsshOrder true false) (by decide) _ (by simp [cfgOf, hs]) (by simp [cfgOf, hk])
+    (by simpa [cfgOf] using hl) (untrusted_of_entries hmac imp es host serverKey env hun)
 
 /-! ### system transport -/
 
@@ -326,6 +368,7 @@ def exEntries : List Entry :=
    { ids := [.plain "r2"], keyType := "ssh-rsa", key := "SRV" },
    { ids := [.plain "r1"], keyType := "ssh-rsa", key := "OTHER3" }]
 def exHmac : String → String → String := fun s h => h ++ "/" ++ s
+def exImp : String → String → Bool := fun kt _ => kt != "ssh-bogus"
 def exEnv : Env := { strict := true, hasKey := true, keyLoads := true, hasPw := true, hasUser := true,
                      kexOK := true, accKey := true, accPw := true }
 
@@ -335,17 +378,20 @@ def exEnv2 : Env := { strict := true, hasKey := false, keyLoads := false, hasPw 
 example : lookup exHmac (parse exEntries) "r1" = some ("ssh-rsa", "OTHER3") ∧
     lookup exHmac (parse exEntries) "r2" = some ("ssh-rsa", "SRV") ∧
     lookup exHmac (parse exEntries) "zz" = none ∧
-    paramikoOpen (cfgOf exHmac exEntries "r1" "SRV" exEnv) =
+    paramikoOpen (cfgOf exHmac exImp exEntries "r1" "SRV" exEnv) =
       [Ev.kex, Ev.lookup true false, Ev.verifyFail, Ev.raise Exc.authenticationFailed] ∧
-    paramikoOpen (cfgOf exHmac exEntries "r2" "SRV" exEnv) =
+    paramikoOpen (cfgOf exHmac exImp exEntries "r2" "SRV" exEnv) =
       [Ev.kex, Ev.lookup true true, Ev.verifyOK, Ev.offerKey, Ev.openSession] ∧
-    ssh2Open (cfgOf exHmac exEntries "zz" "SRV" exEnv2) =
+    ssh2Open (cfgOf exHmac exImp exEntries "zz" "SRV" exEnv2) =
       [Ev.kex, Ev.lookup false false, Ev.verifyFail, Ev.raise Exc.authenticationFailed] := by decide
 
 example : safeOrder [(.authenticate, false), (.handshake, false), (.verifyKey, true)] = false ∧
     safeOrder [(.handshake, false), (.authenticate, false), (.verifyKey, true), (.openChannel, false)] = false ∧
-    safeOrder (asyncsshOrder false) = false ∧ safeOrder (asyncsshOrder true) = true ∧
-    run .asyncssh (asyncsshOrder true) leakCfg =
+    safeOrder (asyncsshOrder false false) = false ∧ safeOrder (asyncsshOrder true true) = false ∧
+    safeOrder (asyncsshOrder true false) = true ∧
+    run .asyncssh (asyncsshOrder true false) unusableCfg =
+      [Ev.lookup true false, Ev.lookup true false, Ev.raise Exc.authenticationFailed] ∧
+    run .asyncssh (asyncsshOrder true false) leakCfg =
       [Ev.lookup true false, Ev.lookup true false, Ev.kex, Ev.verifyFail, Ev.raise Exc.authenticationFailed] := by decide
 
 def exArgs : SysArgs :=
